@@ -35,11 +35,42 @@ def group_words(rule_name, group, k=0):
     return sorted({w.strip() for w in lang(g) if w.strip()})
 
 
+# ---- what a written weekday / month *means* is not taken from the code's table: the surface forms come from the shipped
+# patterns (so every accepted spelling is exercised), their meaning from this lexicon of English/German stems.  A spelling
+# filed under the wrong table entry in the source (e.g. "Sonnabend" under Sunday) is then a wrong answer, not a new truth.
+_DOW_STEMS = [("sonnabend", 5), ("mo", 0), ("di", 1), ("tu", 1), ("mi", 2), ("we", 2), ("do", 3), ("th", 3), ("fr", 4), ("sa", 5), ("so", 6), ("su", 6)]
+_MONTH_STEMS = [("jan", 1), ("feb", 2), ("mar", 3), ("mrz", 3), ("mär", 3), ("apr", 4), ("mai", 5), ("may", 5), ("jun", 6), ("jul", 7), ("aug", 8),
+                ("sep", 9), ("oct", 10), ("okt", 10), ("nov", 11), ("dec", 12), ("dez", 12)]
+UNCLASSIFIED = []       # accepted spellings the lexicon cannot place (reported in the evidence; empty on the shipped tree)
+
+
+def _classify(word, stems):
+    w = word.lower()
+    for stem, k in stems:
+        if w.startswith(stem):
+            return k
+    return None
+
+
+def _bucket(words, stems, n, base):
+    out = [[] for _ in range(n)]
+    for w in sorted(set(words)):
+        k = _classify(w, stems)
+        if k is None:
+            if w not in UNCLASSIFIED:
+                UNCLASSIFIED.append(w)
+        else:
+            out[k - base].append(w)
+    return out
+
+
 def dow_words():
+    """spellings of the weekday pattern, grouped by the weekday they *mean* (Monday = 0)"""
     from ctparse.time.rules import _dows
-    return [group_words("ruleNamedDOW", n) for n, _ in _dows]
+    return _bucket([w for n, _ in _dows for w in group_words("ruleNamedDOW", n)], _DOW_STEMS, 7, 0)
 
 
 def month_words():
+    """spellings of the month pattern, grouped by the month they *mean* (index 0 = January)"""
     from ctparse.time.rules import _months
-    return [group_words("ruleNamedMonth", n) for n, _ in _months]
+    return _bucket([w for n, _ in _months for w in group_words("ruleNamedMonth", n)], _MONTH_STEMS, 12, 1)
